@@ -299,6 +299,7 @@ class Plane:
             Use `points_on_or_in_front()` for points which lie either on the
             plane or in front of it.
         """
+        vg.shape.check(locals(), "points", (-1, 3))
         sign = self.sign(points)
 
         if inverted:
@@ -327,6 +328,7 @@ class Plane:
             Use `points_in_front()` to get points which lie only in front of
             the plane.
         """
+        vg.shape.check(locals(), "points", (-1, 3))
         sign = self.sign(points)
 
         if inverted:
